@@ -20,7 +20,7 @@ INV_OF = {
 }
 # clauses of the state projection whose disagreement with the specification concerns each property
 CLAUSES_OF = {
-    "C04": {"insts.dstat", "insts.unsat", "world"},
+    "C04": {"insts.dstat", "insts.unsat", "insts.state", "world"},
     "C05": {"reg", "world", "insts.domain"},
     "C06": None,  # every disagreement concerns the job state machine / experiment exit
     "C07": {"failed", "insts.state", "insts.result", "waiter"},
@@ -33,7 +33,8 @@ FAMILIES = {
     "C08": ["tok"], "C09": ["tok"], "C11": ["restart"],
 }
 PLAN_FILTER = {
-    "C04": lambda n: n.startswith(("chain", "fork", "join", "diamond", "tok-dep", "late", "resubmit-dep", "waitjob")),
+    "C04": lambda n: n.startswith(("chain", "fork", "join", "diamond", "tok-dep", "tok-big", "tok3", "late", "resubmit-dep",
+                                   "waitjob", "kill-restart", "rerun")),
     "C05": lambda n: n.startswith(("dup", "resubmit", "rerun", "kill", "chain2-direct")),
     "C06": lambda n: True,
     "C07": lambda n: "fail" in n or n.startswith(("late", "diamond", "fork", "chain3", "resubmit", "rerun-failed")),
@@ -178,6 +179,17 @@ def run(prop, tier, replay=None):
     s0 = seed()
     jobs = [(allplans[n], "random", (s0 * 1000003 + k) * 131 + zlib.crc32(n.encode()) % 97) for n in names for k in range(nrand)]
     labels = [n for n in names for k in range(nrand)]
+    # fault sweep: the scheduler dies after k recorded events, for every k along a few base schedules
+    nbase = 2 if tier == "quick" else 12
+    for n in names:
+        if any(op[0] == "kill" for op in allplans[n]["program"]):
+            for b in range(nbase):
+                for k in range(0, 64, 1 if tier == "thorough" else 2):
+                    pl = dict(allplans[n])
+                    pl["killat"] = k
+                    pl["slowprocs"] = b % 2 == 0
+                    jobs.append((pl, "random", (s0 * 7919 + b) * 64 + k))
+                    labels.append(f"{n}/killat{k}")
     results = sched.execute(jobs)
     dfs = sched.execute_dfs([allplans[n] for n in DFS_PLANS[prop]], budget)
     exhaustive = []
